@@ -88,8 +88,8 @@ def judge(ctx):
     for fn, texts, pre, singles, bid in ctx.batches:
         outs = [impl.get(i, 'missing') for i in singles]
         b = impl.get(bid, 'missing')
-        if any(not o.startswith('ok ') for o in outs) or 'panic' in b:
-            continue
+        if any(not o.startswith('ok ') for o in outs) or not b.startswith(('ok ', 'err ')):
+            continue          # a panic / death of any of them is reported by the generic rule of check.py
         data, offs = pre, []
         for o in outs:
             f = o.split(' ')
@@ -102,8 +102,8 @@ def judge(ctx):
                         case=[fn] + texts, prefix=pre.hex()[:64], expected=want[:300], observed=b[:300])
     for op, pre, base, pid in ctx.trials:
         b, p = impl.get(base, 'missing'), impl.get(pid, 'missing')
-        if b == 'panic' or p == 'panic':
-            continue
+        if not b.startswith(('ok ', 'err ')) or not p.startswith(('ok ', 'err ')):
+            continue          # panic / abort / timeout: reported by the generic rule of check.py (valid documents)
         bp, pp = b.split(' '), p.split(' ')
         if bp[0] != pp[0]:
             ctx.violate('success/error depends on the buffer content', case=op, observed=[b, p[:200]])
